@@ -266,6 +266,14 @@ def rule_threading(ck):
                             if isinstance(q, ast.Subscript) and isinstance(q.value, ast.Name) and q.value.id == x and isinstance(q.slice, ast.Constant) and q.slice.value == 1 \
                                     and isinstance(q.ctx, ast.Load) and node in fl.defs_at(m, x):
                                 used = True
+            if not used and isinstance(st, ast.Assign) and st.value is c and len(st.targets) == 1 and isinstance(st.targets[0], ast.Name):
+                # pair kept in one variable and unpacked later:  res = f(..); obj, acc = res
+                x = st.targets[0].id
+                for m in fl.cfg.nodes:
+                    if m.kind == "stmt" and isinstance(m.stmt, ast.Assign) and isinstance(m.stmt.value, ast.Name) and m.stmt.value.id == x and node in fl.defs_at(m, x) \
+                            and len(m.stmt.targets) == 1 and isinstance(m.stmt.targets[0], (ast.Tuple, ast.List)) and len(m.stmt.targets[0].elts) == 2 \
+                            and isinstance(m.stmt.targets[0].elts[1], ast.Name) and m.stmt.targets[0].elts[1].id == want:
+                        used = True
             ck.require(used, "C09.R3", f, st if st is not None else c, ok=f"the returned {want} is carried on",
                        bad=f"the accumulator returned by the call is dropped: objects registered by the callee are forgotten", sink=f"{f.qual}:{nm}:rebind")
         # a restore helper that loads nested objects extends the accumulator: its result may not be thrown away
